@@ -29,6 +29,23 @@ static EBUF0: [u8; 64] = ebuf::<64>();
 static EBUF1: [u8; 64] = ebuf::<64>();
 static EBUF2: [u8; 64] = ebuf::<64>();
 static EBUF3: [u8; 64] = ebuf::<64>();
+// U+20AC = E2 82 AC (three bytes per character): 2 characters already have 6 bytes,
+// so the byte-based budget and the character-based distance diverge further
+static TBUF0: [u8; 63] = tbuf::<63>();
+static TBUF1: [u8; 63] = tbuf::<63>();
+static TBUF2: [u8; 63] = tbuf::<63>();
+static TBUF3: [u8; 63] = tbuf::<63>();
+
+const fn tbuf<const N: usize>() -> [u8; N] {
+    let mut b = [0xE2u8; N];
+    let mut i = 0;
+    while i + 2 < N {
+        b[i + 1] = 0x82;
+        b[i + 2] = 0xAC;
+        i += 3;
+    }
+    b
+}
 
 const fn ebuf<const N: usize>() -> [u8; N] {
     let mut b = [0xC3u8; N];
@@ -65,13 +82,18 @@ pub fn budget(bytes: usize) -> Option<usize> {
 /// candidate length triple, list length 0..3.
 #[cfg(kani)]
 fn layer1(w: usize, b0: &'static [u8], b1: &'static [u8], b2: &'static [u8], b3: &'static [u8]) {
+    layer1_n(w, 30, b0, b1, b2, b3)
+}
+
+#[cfg(kani)]
+fn layer1_n(w: usize, maxc: usize, b0: &'static [u8], b1: &'static [u8], b2: &'static [u8], b3: &'static [u8]) {
     unsafe {
         WIDTH = w;
     }
     let n: usize = kani::any();
-    kani::assume(n <= 30);
+    kani::assume(n <= maxc);
     let m: [usize; 3] = kani::any();
-    kani::assume(m[0] <= 30 && m[1] <= 30 && m[2] <= 30);
+    kani::assume(m[0] <= maxc && m[1] <= maxc && m[2] <= maxc);
     let k: usize = kani::any();
     kani::assume(k <= 3);
     let received = s(b0, n, w);
@@ -146,14 +168,19 @@ pub fn fmt_probe(args: core::fmt::Arguments<'_>) -> String {
 
 #[cfg(kani)]
 fn layer2(w: usize, b0: &'static [u8], b1: &'static [u8], b2: &'static [u8], b3: &'static [u8]) {
+    layer2_n(w, 30, b0, b1, b2, b3)
+}
+
+#[cfg(kani)]
+fn layer2_n(w: usize, maxc: usize, b0: &'static [u8], b1: &'static [u8], b2: &'static [u8], b3: &'static [u8]) {
     unsafe {
         WIDTH = w;
         NPIECES = 0;
     }
     let n: usize = kani::any();
-    kani::assume(n <= 30);
+    kani::assume(n <= maxc);
     let m: [usize; 3] = kani::any();
-    kani::assume(m[0] >= 1 && m[1] >= 1 && m[2] >= 1 && m[0] <= 30 && m[1] <= 30 && m[2] <= 30);
+    kani::assume(m[0] >= 1 && m[1] >= 1 && m[2] >= 1 && m[0] <= maxc && m[1] <= maxc && m[2] <= maxc);
     let received = s(b0, n, w);
     let all = [s(b1, m[0], w), s(b2, m[1], w), s(b3, m[2], w)];
     let out = did_you_mean(received, &all);
@@ -208,4 +235,34 @@ pub fn c18_q_named_ascii() {
 #[kani::stub(alloc::fmt::format, fmt_probe)]
 pub fn c18_t_named_multibyte() {
     layer2(2, &EBUF0, &EBUF1, &EBUF2, &EBUF3);
+}
+
+/// three-byte characters, up to 21 characters (63 bytes): every budget class is reached
+/// with fewer characters than bytes (2 characters = 6 bytes = budget 1)
+#[cfg(kani)]
+#[kani::proof]
+#[kani::unwind(5)]
+#[kani::stub(strsim::damerau_levenshtein, dl_stub)]
+#[kani::stub(alloc::fmt::format, fmt_marker)]
+pub fn c18_t_threebyte_lengths() {
+    layer1_n(3, 21, &TBUF0, &TBUF1, &TBUF2, &TBUF3);
+}
+
+#[cfg(kani)]
+#[kani::proof]
+#[kani::unwind(5)]
+#[kani::stub(strsim::damerau_levenshtein, dl_stub)]
+#[kani::stub(alloc::fmt::format, fmt_probe)]
+pub fn c18_t_named_threebyte() {
+    layer2_n(3, 21, &TBUF0, &TBUF1, &TBUF2, &TBUF3);
+}
+
+/// ASCII up to 64 bytes: twice the quick tier's range, far into the constant budget-5 class
+#[cfg(kani)]
+#[kani::proof]
+#[kani::unwind(5)]
+#[kani::stub(strsim::damerau_levenshtein, dl_stub)]
+#[kani::stub(alloc::fmt::format, fmt_marker)]
+pub fn c18_t_ascii_lengths_64() {
+    layer1_n(1, 64, &BUF0, &BUF1, &BUF2, &BUF3);
 }
